@@ -187,12 +187,12 @@ const (
 
 // E1Config selects everything that is fixed at collector start (most of it can be changed later by Reload).
 type E1Config struct {
-	Workers       int                                // ≥1
-	Traces        config.TracesConfig                // SendTicker > 0 required
-	IncomingQueue int                                // total, Refinery divides by workers (ceil); 0 ⇒ 10000
-	PeerQueue     int                                // same
-	KeptSize      uint                               // total; 0 ⇒ 10000·workers
-	DroppedSize   uint                               // total; 0 ⇒ 20000·workers
+	Workers       int                 // ≥1
+	Traces        config.TracesConfig // SendTicker > 0 required
+	IncomingQueue int                 // total, Refinery divides by workers (ceil); 0 ⇒ 10000
+	PeerQueue     int                 // same
+	KeptSize      uint                // total; 0 ⇒ 10000·workers
+	DroppedSize   uint                // total; 0 ⇒ 20000·workers
 	DryRun        bool
 	AddRuleReason bool
 	AddSpanCount  bool
@@ -220,8 +220,8 @@ type E1Added struct {
 	VTime    time.Duration `json:"vtime"`
 	Accepted bool          `json:"accepted"`
 	Err      string        `json:"err,omitempty"`
-	Stressed bool          `json:"stressed,omitempty"`      // went through ProcessSpanImmediately
-	Kept     bool          `json:"stress_kept,omitempty"`   // answer of ProcessSpanImmediately
+	Stressed bool          `json:"stressed,omitempty"`    // went through ProcessSpanImmediately
+	Kept     bool          `json:"stress_kept,omitempty"` // answer of ProcessSpanImmediately
 	Worker   int           `json:"worker"`
 }
 
@@ -298,7 +298,7 @@ func newE1Metrics() *e1Metrics {
 	return &e1Metrics{counters: map[string]int64{}, gauges: map[string]float64{}, consts: map[string]float64{}}
 }
 func (m *e1Metrics) Register(metrics.Metadata) {}
-func (m *e1Metrics) Increment(name string)    { m.mu.Lock(); m.counters[name]++; m.mu.Unlock() }
+func (m *e1Metrics) Increment(name string)     { m.mu.Lock(); m.counters[name]++; m.mu.Unlock() }
 func (m *e1Metrics) Count(name string, n int64) {
 	m.mu.Lock()
 	m.counters[name] += n
@@ -439,20 +439,20 @@ func (p *e1PeerSink) EnqueueSpan(*types.Span)   { p.n.Add(1) }
 // -------------------------------------------------------------------------------------
 
 type E1 struct {
-	tb     testing.TB
-	Cfg    *config.MockConfig
-	cfgW   *e1Config
-	Stress *E1Stress
-	coll   *InMemCollector
-	sf     *sample.SamplerFactory
-	clock  *clockwork.FakeClock
-	t0     time.Time
-	tick   time.Duration
+	tb        testing.TB
+	Cfg       *config.MockConfig
+	cfgW      *e1Config
+	Stress    *E1Stress
+	coll      *InMemCollector
+	sf        *sample.SamplerFactory
+	clock     *clockwork.FakeClock
+	t0        time.Time
+	tick      time.Duration
 	ticksDone int64 // number of send ticks processed so far (tick k is at t0+k·tick)
-	met    *e1Metrics
-	health *e1Health
-	rec    *e1Recorder
-	peer   *e1PeerSink
+	met       *e1Metrics
+	health    *e1Health
+	rec       *e1Recorder
+	peer      *e1PeerSink
 
 	step    atomic.Int64
 	nextID  int
@@ -608,13 +608,13 @@ func (e *E1) Stop() {
 	}
 }
 
-func (e *E1) Failed() string      { return e.failed }
-func (e *E1) Step() int           { return int(e.step.Load()) }
-func (e *E1) Now() time.Duration  { return e.clock.Now().Sub(e.t0) }
-func (e *E1) Tick() time.Duration { return e.tick }
-func (e *E1) Workers() int        { return len(e1adWorkers(e.coll)) }
-func (e *E1) Ops() []E1Op         { return e.ops }
-func (e *E1) Added() []E1Added    { return e.added }
+func (e *E1) Failed() string              { return e.failed }
+func (e *E1) Step() int                   { return int(e.step.Load()) }
+func (e *E1) Now() time.Duration          { return e.clock.Now().Sub(e.t0) }
+func (e *E1) Tick() time.Duration         { return e.tick }
+func (e *E1) Workers() int                { return len(e1adWorkers(e.coll)) }
+func (e *E1) Ops() []E1Op                 { return e.ops }
+func (e *E1) Added() []E1Added            { return e.added }
 func (e *E1) WorkerOf(traceID string) int { return e1adWorkerFor(e.coll, traceID) }
 func (e *E1) Counter(name string) int64   { return e.met.counter(name) }
 func (e *E1) Config() config.Config       { return e.cfgW }
@@ -1105,13 +1105,13 @@ type E1TraceObs struct {
 // E1Final is the end-of-history observation set.
 type E1Final struct {
 	Traces      map[string]*E1TraceObs
-	Order       []string             // trace ids in first-seen order
-	Unknown     []E1Event            // events whose verif.id was never handed over
-	BufferLeft  []E1Buffered         // traces still buffered
-	DropClaims  int                  // trace ids of this history the dropped filter claims
-	DropCounter int64                // trace_send_dropped
-	StressDrops int64                // dropped_from_stress
-	FilterLag   int                  // ids still unanswered by the decision cache when the wall-clock bound expired
+	Order       []string     // trace ids in first-seen order
+	Unknown     []E1Event    // events whose verif.id was never handed over
+	BufferLeft  []E1Buffered // traces still buffered
+	DropClaims  int          // trace ids of this history the dropped filter claims
+	DropCounter int64        // trace_send_dropped
+	StressDrops int64        // dropped_from_stress
+	FilterLag   int          // ids still unanswered by the decision cache when the wall-clock bound expired
 }
 
 const e1FilterLagBound = 2 * time.Second
@@ -1264,8 +1264,8 @@ func (f *E1Final) DropFilterExcess() int {
 
 // E1SamplerDef is a sampler definition plus what the driver can predict about it.
 type E1SamplerDef struct {
-	Kind    string
-	Choice  *config.V2SamplerChoice
+	Kind   string
+	Choice *config.V2SamplerChoice
 	// Predict returns the decision for a trace whose spans ALL carry verif.keep=keepField, when known.
 	Predict func(traceID string, keepField bool) (keep bool, known bool)
 }
@@ -1369,12 +1369,12 @@ type e1TracePlan struct {
 
 // E1History is one generated lifecycle case: configuration + operation list.
 type E1History struct {
-	Cfg      E1Config
-	Defs     map[string]E1SamplerDef // current definition per environment (follows reloads during Run)
-	Plans    []*e1TracePlan
-	Steps    []e1Step
-	Profile  E1Profile
-	MinKept  int // smallest kept capacity per worker over the history
+	Cfg     E1Config
+	Defs    map[string]E1SamplerDef // current definition per environment (follows reloads during Run)
+	Plans   []*e1TracePlan
+	Steps   []e1Step
+	Profile E1Profile
+	MinKept int // smallest kept capacity per worker over the history
 }
 
 type e1Step struct {
